@@ -319,6 +319,17 @@ theorem aso_length (ens : List (List (P3 ℚ))) (radii : List ℚ) (w : Option (
     (aso ens radii w grid).length = grid.length := by
   simp [aso]
 
+/-- the descriptors are computed grid point by grid point: evaluating a grid in pieces (batches, chunks) and
+concatenating gives the value on the whole grid — whatever the sizes of the pieces. -/
+theorem aso_append (ens : List (List (P3 ℚ))) (radii : List ℚ) (w : Option (List ℚ)) (g1 g2 : List (P3 ℚ)) :
+    aso ens radii w (g1 ++ g2) = aso ens radii w g1 ++ aso ens radii w g2 := by
+  simp [aso]
+
+theorem aeif_append (ens : List (List (P3 ℚ))) (charges : List (List ℚ)) (radii : List ℚ) (w : Option (List ℚ))
+    (g1 g2 : List (P3 ℚ)) :
+    aeif ens charges radii w (g1 ++ g2) = aeif ens charges radii w g1 ++ aeif ens charges radii w g2 := by
+  simp [aeif, indicatorField]
+
 /-- an average of indicators lies in `[0,1]` (non-negative weights with positive sum; or unweighted with
 at least one conformer). -/
 theorem aso_bounds (ens : List (List (P3 ℚ))) (radii : List ℚ) (w : Option (List ℚ)) (grid : List (P3 ℚ))
